@@ -308,3 +308,86 @@ theorem evictNodes_justified_at_table {S : List Nat} {p : Policy} (hi : LInv S p
   exact justT_of_just (just_evictNodes p) live (hi.mv hm) hw' (hm.1.trans hp)
 
 end OtterVerif.Impl.Policy
+
+namespace OtterVerif.Impl.Policy
+
+/-- the converse of `Ek`: whatever is newly on the callback list is dead (and nodes only die: `Dn`) -/
+def DE (p p' : Policy) : Prop := Dn p p' ∧ ∀ x, x ∈ p'.evicted → x ∈ p.evicted ∨ (p'.node x).st = .dead
+
+theorem DE.refl (p : Policy) : DE p p := ⟨Dn.refl p, fun _ h => Or.inl h⟩
+
+theorem DE.trans {p p' p'' : Policy} (h1 : DE p p') (h2 : DE p' p'') : DE p p'' := by
+  refine ⟨h1.1.trans h2.1, fun x hx => ?_⟩
+  rcases h2.2 x hx with a | d
+  · rcases h1.2 x a with a' | d'
+    · exact Or.inl a'
+    · right
+      rcases h2.1 x with e | d''
+      · rw [e, d']
+      · exact d''
+  · exact Or.inr d
+
+theorem DE.of_same {p p' : Policy} (hn : ∀ id, (p'.node id).st = (p.node id).st) (he : p'.evicted = p.evicted) : DE p p' :=
+  ⟨fun id => Or.inl (hn id), fun x hx => Or.inl (by rw [← he]; exact hx)⟩
+
+theorem de_evictNode (p : Policy) (x : Nat) (hn : (all p).Nodup) : DE p (evictNode p x) := by
+  have he : (evictNode p x).evicted = p.evicted ++ [x] := by
+    rw [evicted_evictNode]; show (makeDead p x).evicted ++ [x] = _; rw [evicted_makeDead]
+  refine ⟨dn_evictNode p x hn, fun y hy => ?_⟩
+  rw [he] at hy
+  rcases List.mem_append.mp hy with a | b
+  · exact Or.inl a
+  · rw [List.mem_singleton.mp b]; exact Or.inr (evictNode_dead p x)
+
+theorem de_makeDead (p : Policy) (x : Nat) (hn : (all p).Nodup) : DE p (makeDead p x) :=
+  ⟨dn_makeDead p x hn, fun y hy => Or.inl (by rw [evicted_makeDead] at hy; exact hy)⟩
+
+theorem de_of_just {S : List Nat} {p q : Policy} (h : Just p q) : LInv S p → DE p q := by
+  induction h with
+  | done p => intro _; exact DE.refl p
+  | evict p q x _ _ ih => intro hi; exact (de_evictNode p x hi.c).trans (ih (LInv.evictNode x hi))
+  | draw p q a b _ ih =>
+    intro hi
+    exact (DE.of_same (fun id => by rw [node_admit]) (evicted_admit p a b)).trans (ih (LInv.admit a b hi))
+
+theorem de_evictNodes {S : List Nat} {p : Policy} (hi : LInv S p) : DE p (evictNodes p) :=
+  (DE.of_same (mv_evictFromWindow p hi.c).2 (evicted_evictFromWindow p)).trans
+    (de_of_just (just_evictNodes p) (hi.mv (mv_evictFromWindow p hi.c)))
+
+theorem de_add {S : List Nat} {p : Policy} (id : Nat) (hi : LInv S p) : DE p (add p id) := by
+  rw [add_eq]
+  simp only
+  have h0 : DE p (addPrefix p id) := DE.of_same (fun x => by rw [node_addPrefix]) (evicted_addPrefix p id)
+  have hi0 : LInv S (addPrefix p id) := hi.mv (mv_addPrefix p id)
+  split
+  · exact h0
+  · split
+    · refine h0.trans ?_
+      refine DE.trans ?_ (de_evictNode _ id (hi0.same _ rfl (fun _ => rfl)).c)
+      exact DE.of_same (fun _ => rfl) rfl
+    · split
+      · exact h0.trans (DE.of_same (fun x => by rw [node_pushFront]) (evicted_pushFront _ _ _))
+      · exact h0.trans (DE.of_same (fun x => by rw [node_pushBack]) (evicted_pushBack _ _ _))
+
+/-- **the callback list holds only dead nodes, after every sequential history**: with `Ek` (an alive node leaves the mapped set
+    only through the callback) this pins `react` down from both sides for the add event and the eviction pass -/
+theorem callback_nodes_dead_after_insert {S : List Nat} {p : Policy} (h : Reach S p) (id key w : Nat) (hs : id ∉ S)
+    (hall : ∀ x, x ∈ p.evicted → (p.node x).st = .dead ∧ x ≠ id) :
+    ∀ x, x ∈ (evictNodes (add (mkNode p id key w .alive) id)).evicted →
+      ((evictNodes (add (mkNode p id key w .alive) id)).node x).st = .dead := by
+  have r1 : Reach S (mkNode p id key w .alive) := Reach.mk id key w .alive h hs
+  have r2 : Reach (id :: S) (add (mkNode p id key w .alive) id) := Reach.add id r1 hs
+  have hde := (de_add id (reach_inv r1)).trans (de_evictNodes (reach_inv r2))
+  intro x hx
+  rcases hde.2 x hx with a | d
+  · -- already on the list before the step: it was dead, and nodes only die
+    have hx0 : x ∈ p.evicted := a
+    have hd0 := hall x hx0
+    have : ((mkNode p id key w .alive).node x).st = .dead := by
+      unfold mkNode; rw [node_setNode_other _ _ _ hd0.2]; exact hd0.1
+    rcases hde.1 x with e | d
+    · rw [e, this]
+    · exact d
+  · exact d
+
+end OtterVerif.Impl.Policy
